@@ -4,7 +4,7 @@ import XehModel.Driver.C01
 /-! `sess` requests (shared by C10 and C11): a history of sources submitted to one interpreter.
 
     `<PID> sess dict=… heap=… lim=… ops=<op>;<op>;…`   op = `e:<toks>` (eval) | `c:<toks>` (compile) |
-    `r` (run) | `a` (abort_run) | `l:<toks>` (a REPL line: compile, run, abort_run on failure)
+    `r` (run) | `a` (abort_run) | `l:<toks>` (a REPL line: compile, run, abort_run when the run fails)
     answer: `<result>@<state>` per op, joined by `;`, then `#code=<final bytecode>` -/
 namespace Xeh.Driver.Sess
 open Xeh Xeh.Codec Xeh.VMCodec Xeh.Compile Xeh.Session
@@ -51,7 +51,7 @@ def doOp (dict0 : Nat) (s : Sess) (op : String) : OpRes :=
         if k == "e" then ofB dict0 (s.buildSource runFuel .eval toks)
         else if k == "c" then ofB dict0 (s.buildSource runFuel .compile toks)
         else if k == "l" then
-          -- a REPL line: compile, then run; any failure is followed by abort_run
+          -- a REPL line: compile, then run; a failure of the run is followed by abort_run (a rejected line is not)
           match s.buildSource runFuel .compile toks with
           | .done s1 =>
             match s1.runS runFuel with
@@ -60,7 +60,7 @@ def doOp (dict0 : Nat) (s : Sess) (op : String) : OpRes :=
             | .panic _ s2 => .ans "panic@" s2
             | .unsupported u => .unsupported u
             | .timeout => .timeout
-          | .rejected e s1 => let s2 := s1.abortRun; .ans s!"rej {errStr e}@{digest dict0 s2}" s2
+          | .rejected e s1 => .ans s!"rej {errStr e}@{digest dict0 s1}" s1
           | .failed e s1 => let s2 := s1.abortRun; .ans s!"fail {errStr e}@{digest dict0 s2}" s2
           | .panic _ s1 => .ans "panic@" s1
           | .unsupported u => .unsupported u
